@@ -41,6 +41,7 @@ func init() {
 				cbmRoundInputs(c, id)
 				workersSignal("couchbase.cbMembership).monitor")(c, id)
 			}},
+			{ID: "C10.R19", Text: "Couchbase membership, the instance document is written by the ladder update | update(key not found) → create → create(ok) → update, each step under exactly its condition, the last step's error deciding", Run: registerLadder},
 			{ID: "C10.R5", Text: "Couchbase membership: lastActiveInstances is written only in the numbering step after the publish decision; on CAS mismatch the round is restarted (monitor re-entered), nothing is rewritten", Run: c10r5},
 		},
 	})
